@@ -38,8 +38,8 @@ theorem amountSecondSign_reachL (sg) {a st : PState σ} (h0 : ReachL E a st) :
   unfold amountSecondSign
   grind [ReachL.adv]
 
-theorem amountRightCommodity_reachL (c) {a st : PState σ} (h0 : ReachL E a st) :
-    ReachL E a (amountRightCommodity E c st).2 := by
+theorem amountRightCommodity_reachL (c) (stop : Pos) {a st : PState σ} (h0 : ReachL E a st) :
+    ReachL E a (amountRightCommodity E c stop st).2 := by
   unfold amountRightCommodity
   grind [ReachL.adv]
 
